@@ -402,12 +402,14 @@ func (p *TemplateSignature) instantiate(pkg *Package, fn *internal.Elem, args []
 			if t.Kind() == types.UntypedInt {
 				switch constant.Val(nargs[i].CVal).(type) {
 				case *big.Int:
-					nargs[i].Type = pkg.utBigInt
+					if pkg.utBigInt != nil { // big-number types are optional configuration
+						nargs[i].Type = pkg.utBigInt
+					}
 				}
 			}
 		}
 	}
-	if p.isOp() {
+	if p.isOp() && len(args) > 1 { // unary operators have a single operand
 		// fix binary bigint -> rat
 		if args[0].Type == pkg.utBigRat && args[1].Type == pkg.utBigInt {
 			nargs[1] = &internal.Elem{
